@@ -14,6 +14,7 @@ package props
 // is below the real root.  Everything probed/evaluated must be below the root.
 
 import (
+	"bytes"
 	"context"
 	"fmt"
 	"io/fs"
@@ -39,9 +40,10 @@ func init() {
 			"Interpreter loads of a loader file spell the top-level request differently from its true location in half of the loads ('.' component, doubled separator, cwd-relative instead of absolute and vice versa). " +
 			"Hop contexts (interpreter only; one hash-selected hop per (location, configuration) at rate 3/7, thorough 5/7): a hop file in one loader directory is loaded by LoadFile | LoadFileContext | (load-file) and, while it executes, loads a loader file of another (or the same) directory by a RELATIVE request ('sub/ldr.lisp', '../ldr.lisp', unclean, through a directory or file link, the hop file itself reached through a directory link) either through a host Go builtin calling env.LoadFile | env.LoadFileContext or through its own (load-file); the loader file then loads the location under test, which must resolve against the loader file's directory. " +
 			"Sequence contexts (interpreter only; one hash-selected context per (location, configuration) at rate 2/7, thorough 4/7): a sequence file in a loader directory hands a LIST of locations to a builtin that calls load-file (or a host Go include builtin calling env.LoadFile | env.LoadFileContext) back once per element - shapes map 'list | map 'vector | select | reject | map with the include builtin | foldl with the include builtin | foldl over a lambda | funcall in a dotimes | apply in a mapped lambda | consecutive top-level forms - where the earlier elements are marker files of OTHER directories (alone, in pairs, mixed with a file of the same directory) and the last element is the location under test, or the relative request reaching a loader file of another (or the same) directory which then loads the location under test; the later loads must still resolve against the sequence file's directory, and each of them must reach the library with the sequence file's true location as loading context. " +
-			"An unconfined RelativeFileSystemLibrary{} is exercised in the loader, hop and sequence contexts for the relative-resolution clause only. " +
+			"String-sourced contexts (interpreter only; one hash-selected context per (location, configuration) at rate 3/14, thorough 5/14): the load is issued by code evaluated from a string, []byte or reader under a stream name drawn by the PRNG from the layout's label pool (no name, a word, a relative path through directories that exist inside or outside the root spelled relative to the root, relative to the working directory or absolutely, the path of a real file of another directory, '..'-laden and unclean spellings, a directory reached through a link, a trailing slash, a directory that does not exist, a URL, a random path of 1-4 components), entered by the host through LoadString | LoadStringContext | Load | LoadContext or by lisp through load-string | load-bytes with and without :name (plain, inside a let, a lambda, a map, a string inside a string), at top level or from a running file in a loader directory, and loading the location under test itself or a loader file which then loads it; string-sourced code has no loading file, so the model reads its locations like top-level ones, the library must be handed the empty context location for its calls, and the same load repeated under a control name must evaluate the same files in the same order. " +
+			"An unconfined RelativeFileSystemLibrary{} is exercised in the loader, hop, sequence and string-sourced contexts for the relative-resolution clause (and the independence from the stream name) only. " +
 			"A recording wrapper around the interpreter's library observes (loading context, request, true location) of every library call: the context of each nested call must be the true location the library returned for the file doing the loading. " +
-			"Driver: the real `elps run [--root-dir]` binary over ~600 (thorough 4000) locations x 7 invocations (two of them a file loading every location as the last element of (map 'list load-file '(file-of-another-directory LOCATION))), and one strace'd worker (no successful open of an outside file between the sentinels of a load). " +
+			"Driver: the real `elps run [--root-dir]` binary over ~600 (thorough 4000) locations x 8 invocations (two of them a file loading every location as the last element of (map 'list load-file '(file-of-another-directory LOCATION)), one a file loading every location through (load-string '(load-file LOCATION)' :name NAME) under a drawn and under a control stream name), and one strace'd worker (no successful open of an outside file between the sentinels of a load). " +
 			"A coverage key is lib|rootspec|context|entry|location-shape|outcome where location-shape = (form flags, #components bucket, '..' present, links followed: kind x position x inside/outside, model errno, final inside/outside, for both readings when they differ); loads whose location is a plain miss (ENOENT, no link, no '..') are counted as trivial and give no key.",
 		Assumptions: []string{
 			"the kernel's path resolution and symlink creation behave as POSIX specifies (cross-checked per case: every location is also opened with os.ReadFile and compared with the model; a mismatch makes the run inconclusive)",
@@ -83,13 +85,14 @@ type c20Tier struct {
 	rate        int // non-primary (configuration, context) pairs per location: rate/7
 	hopRate     int // hop contexts: one per (location, interpreter configuration) at hopRate/7
 	seqRate     int // sequence contexts: one per (location, interpreter configuration) at seqRate/7
+	strRate     int // string-sourced contexts: one per (location, interpreter configuration) at strRate/14
 }
 
 func c20TierOf(tier string) c20Tier {
 	if tier == "thorough" {
-		return c20Tier{layouts: 32, chunks: 96, depth: 3, deepLayouts: 6, nrand: 6000, rate: 4, hopRate: 5, seqRate: 4}
+		return c20Tier{layouts: 32, chunks: 96, depth: 3, deepLayouts: 6, nrand: 6000, rate: 4, hopRate: 5, seqRate: 4, strRate: 5}
 	}
-	return c20Tier{layouts: 8, chunks: 48, depth: 3, deepLayouts: 0, nrand: 1500, rate: 2, hopRate: 3, seqRate: 2}
+	return c20Tier{layouts: 8, chunks: 48, depth: 3, deepLayouts: 0, nrand: 1500, rate: 2, hopRate: 3, seqRate: 2, strRate: 3}
 }
 
 func c20Cases(tier string) int {
@@ -174,6 +177,11 @@ type c20LocState struct {
 	seq      []string
 	seqArmed bool
 	seqEntry string // LoadFile | LoadFileContext
+	// string-sourced code: the source text, its stream name and the host entry
+	// point verif:c20-str-host evaluates it through
+	strSrc   string
+	strLabel string
+	strHost  string // LoadString | LoadStringContext | Load | LoadContext
 }
 
 type c20Builtin struct {
@@ -324,6 +332,20 @@ func (lb *c20Lib) runtime() *rt.R {
 	r.Env.AddBuiltins(true, c20Builtin{"c20-include-acc", lisp.Formals("acc", "loc"), func(e *lisp.LEnv, a *lisp.LVal) *lisp.LVal {
 		return include(e, a.Cells[1])
 	}})
+	// The string builtins: the source text and the stream name a string file (or
+	// a form the host evaluates) hands to load-string / load-bytes, and
+	// c20-str-host, a host Go builtin that evaluates the text through a Load*
+	// entry point of the environment it was handed (the way an application
+	// evaluates a snippet it holds in memory).
+	r.Env.AddBuiltins(true, c20Builtin{"c20-str-src", lisp.Formals(), func(e *lisp.LEnv, a *lisp.LVal) *lisp.LVal {
+		return lisp.String(st.strSrc)
+	}})
+	r.Env.AddBuiltins(true, c20Builtin{"c20-str-label", lisp.Formals(), func(e *lisp.LEnv, a *lisp.LVal) *lisp.LVal {
+		return lisp.String(st.strLabel)
+	}})
+	r.Env.AddBuiltins(true, c20Builtin{"c20-str-host", lisp.Formals(), func(e *lisp.LEnv, a *lisp.LVal) *lisp.LVal {
+		return c20HostLoadString(e, st.strHost, st.strLabel, st.strSrc)
+	}})
 	if rc := r.Env.InPackage(lisp.String(lisp.DefaultUserPackage)); !rc.IsNil() {
 		panic(rc.String())
 	}
@@ -357,7 +379,7 @@ func c20Join(a, b string) string {
 // oracle joins locations with: absolute paths for relfs, absolute paths below
 // the spelled FS root for FS libraries.  nil loader = top level.
 func c20CtxBases(l *sandbox.Layout, lb *c20Lib, ld *sandbox.Loader) []string {
-	if ld == nil {
+	if ld == nil || c20StrDirect(ld) {
 		if lb.isFS {
 			return []string{lb.fsRoot}
 		}
@@ -373,6 +395,18 @@ func c20CtxBases(l *sandbox.Layout, lb *c20Lib, ld *sandbox.Loader) []string {
 		}
 	}
 	return out
+}
+
+// c20StrDirect: the load of the location under test is issued by
+// string-sourced code.  Such code has no loading file (SourceContext.Location:
+// "If executing code is not sourced from a lisp file then Location will return
+// an empty string -- this includes ... raw strings/[]bytes containing lisp
+// code.  SourceLibraries should interpret an empty Location string as the
+// process working directory"), so the oracle reads the location the way it
+// reads a top-level one, whatever the stream name and wherever the file that
+// evaluated the string lives.
+func c20StrDirect(ld *sandbox.Loader) bool {
+	return ld != nil && ld.StrShape != "" && !ld.StrInner
 }
 
 func c20Oracle(l *sandbox.Layout, lb *c20Lib, ld *sandbox.Loader, loc string) c20Expect {
@@ -442,7 +476,9 @@ func c20Oracle(l *sandbox.Layout, lb *c20Lib, ld *sandbox.Loader, loc string) c2
 	// whose kernel walk from the loading file's directory never leaves the
 	// root and follows no absolute link: the clause "relative locations
 	// resolve against the directory of the file doing the loading".
-	if ld != nil && !isAbs && same && only != nil && len(bases) == 1 && !lb.relRoot {
+	// (Top-level loads and loads issued by string-sourced code have no loading
+	// file; their refusals are judged by comparison with a control run only.)
+	if ld != nil && !c20StrDirect(ld) && !isAbs && same && only != nil && len(bases) == 1 && !lb.relRoot {
 		dir := t.Resolve(l.Cwd, bases[0], false)
 		if dir.Err == fsmodel.OK {
 			walk := t.Resolve(dir.Node, loc, false)
@@ -713,6 +749,7 @@ func c20Run(w *fw.W, idx int) {
 	}
 	// replay prints the layout and the violations; C20_TRACE=1 adds one line per load
 	ck := &c20Checker{w: w, rec: w.Rec, st: st, l: l, verbose: w.Verbose && os.Getenv("C20_TRACE") != ""}
+	var strRNG *fw.RNG
 	for i := chunk; i < len(sb.locs); i += tp.chunks {
 		loc := sb.locs[i]
 		ck.validateModel(loc)
@@ -761,6 +798,20 @@ func c20Run(w *fw.W, idx int) {
 					ck.viaLisp(lb, sq, loc, c20Oracle(l, lb, sq, loc), int(h/7/1024))
 				}
 			}
+			// String-sourced contexts (interpreter only): the load is issued by
+			// code evaluated from a string, []byte or reader under a PRNG-drawn
+			// stream name.  One hash-selected context per (location,
+			// configuration), taken at rate strRate/14.
+			if lb.lispToo && len(l.Strs) > 0 {
+				h := fw.HashString("str|" + loc + "|" + lb.label)
+				if int(h%14) < tp.strRate {
+					sc := &l.Strs[int(h/14)%len(l.Strs)]
+					if strRNG == nil {
+						strRNG = w.RNG(idx, "strlabels")
+					}
+					ck.viaString(lb, sc, loc, c20Oracle(l, lb, sc, loc), int(h/14/1024), strRNG)
+				}
+			}
 		}
 	}
 }
@@ -780,6 +831,8 @@ type c20Checker struct {
 	// except in hop contexts, where it names the entry point that loaded the
 	// loader file from the running hop file ("@hop:LoadFile" ...).
 	keySuffix string
+	// the string-sourced context being judged (for descriptions)
+	strBy, strLabel, strClass string
 }
 
 func (ck *c20Checker) report(key, summary string, detail func() string) {
@@ -845,6 +898,17 @@ func (ck *c20Checker) describe(lb *c20Lib, ld *sandbox.Loader, entry, loc string
 			last = fmt.Sprintf("the request %q (-> %s, which performs the nested load of the location under test)", ld.HopReq, ld.InnerSpelled)
 		}
 		ctx += fmt.Sprintf("\n           sequence (%s): %s loads, in this order and each relative to its own directory, %q and then %s", ld.SeqShape, ld.Spelled, ld.SeqPre, last)
+	}
+	if ld != nil && ld.StrShape != "" {
+		who := "the host enters string-sourced code"
+		if !ld.StrTop {
+			who = fmt.Sprintf("%s is loaded first and, while it executes, enters string-sourced code", ld.Spelled)
+		}
+		what := "loads the location under test; it has no loading file, so the location is read like a top-level one"
+		if ld.StrInner {
+			what = fmt.Sprintf("loads %s by a request spelled like a top-level one; that file performs the nested load", ld.InnerSpelled)
+		}
+		ctx = fmt.Sprintf("%s\n           string-sourced (%s): %s through %s, stream name %q (%s); the string-sourced code %s", ld.Label, ld.StrShape, who, ck.strBy, ck.strLabel, ck.strClass, what)
 	}
 	fmt.Fprintf(&sb, "\ncontext  : %s\nentry    : %s\nlocation : %q\njoined   : %q\n", ctx, entry, loc, ex.full)
 	rd := func(name string, r fsmodel.Res) {
@@ -1152,11 +1216,147 @@ func (ck *c20Checker) viaLisp(lb *c20Lib, ld *sandbox.Loader, loc string, ex c20
 	if ld != nil {
 		entry += "+nested"
 	}
-	ck.judgeContexts(lb, ld, entry, loc, ex, loadedBy, nseq)
+	ck.judgeContexts(lb, ld, entry, loc, ex, loadedBy, nseq, -1)
+	ck.judgeRun(lb, ld, entry, loc, ex, chain, v, seqLabel != "")
+}
+
+// c20HostLoadString evaluates source text held in memory through one of the
+// host entry points that take a stream name.
+func c20HostLoadString(e *lisp.LEnv, how, label, src string) *lisp.LVal {
+	switch how {
+	case "LoadStringContext":
+		return e.LoadStringContext(context.Background(), label, src)
+	case "Load":
+		return e.Load(label, strings.NewReader(src))
+	case "LoadContext":
+		return e.LoadContext(context.Background(), label, bytes.NewReader([]byte(src)))
+	}
+	return e.LoadString(label, src)
+}
+
+// viaString performs one load in a string-sourced context: the load-file call
+// is evaluated from a string, []byte or reader that the host (sc.StrTop) or a
+// running file of a loader directory hands to load-string / load-bytes / a
+// host Load* entry point under a stream name drawn from the layout's label
+// pool.  Three judgements:
+//
+//   - the file-system model, reading the location like a top-level one
+//     (string-sourced code has no loading file), or against the loader file's
+//     directory when the string-sourced code loads a loader file first;
+//   - the loading context the library is handed for the call made by the
+//     string-sourced code carries the empty location (judgeContexts);
+//   - the stream name has no influence: the same load under the control name
+//     (a plain word) evaluates the same files in the same order and fails or
+//     succeeds alike.  Key <family>:result-depends-on-stream-name@str:<label class>.
+func (ck *c20Checker) viaString(lb *c20Lib, sc *sandbox.Loader, loc string, ex c20Expect, flavour int, rng *fw.RNG) {
+	r := lb.runtime()
+	st := lb.st
+	sh := sandbox.StrShapeOf(sc.StrShape)
+	class, label := ck.l.StrLabel(rng)
+	if !sh.Named {
+		class, label = "no-name", ""
+	}
+	by, hostEntry := sh.By, ""
+	if sh.Host {
+		hostEntry = sh.By
+	}
+	ck.strBy, ck.strLabel, ck.strClass = by, label, class
+	ck.keySuffix = "@str:" + class
+	defer func() { ck.keySuffix, ck.strBy, ck.strLabel, ck.strClass = "", "", "", "" }()
+
+	// the source text
+	src, literal := `(load-file (verif:c20-loc))`, false
+	alt := (flavour/12)%2 == 1
+	switch {
+	case sc.StrInner:
+		req := ck.spell(lb, sc.InnerSpelled)
+		if alt && !lb.isFS {
+			// the other spelling a top-level request may have (see c20Respell)
+			if strings.HasPrefix(req, "/") {
+				req = sandbox.RelPath(ck.l.CwdRel, sc.InnerSpelled)
+			} else {
+				req = ck.l.Tree.BasePath + "/" + sc.InnerSpelled
+			}
+		}
+		src = `(load-file "` + req + `")`
+	case alt && !strings.ContainsAny(loc, "\"\\"):
+		src, literal = `(load-file "`+loc+`")`, true
+	}
+	target, respell := "", ""
+	if !sc.StrTop {
+		target, respell = c20Respell(ck.l, lb, sc, ck.spell(lb, sc.Spelled), fw.HashString("respell|"+loc+"|"+lb.label+"|"+sc.Label))
+	}
+	run := func(label string) (*lisp.LVal, string) {
+		st.loc, st.armed = loc, sc.StrInner || !literal
+		st.hopArmed, st.seqArmed = false, false
+		st.strSrc, st.strLabel, st.strHost = src, label, hostEntry
+		lb.recl.calls = lb.recl.calls[:0]
+		r.Trace = r.Trace[:0]
+		r.Stderr.Reset()
+		if sc.StrTop {
+			if sh.Host {
+				return c20HostLoadString(r.Env, hostEntry, label, src), hostEntry
+			}
+			return r.Env.LoadString("c20top", sh.Form), "LoadString"
+		}
+		switch flavour % 3 {
+		case 0:
+			return r.Env.LoadFile(target), "LoadFile"
+		case 1:
+			return r.Env.LoadFileContext(context.Background(), target), "LoadFileContext"
+		}
+		return r.Env.LoadString("c20top", `(load-file "`+target+`")`), "load-file"
+	}
+	v, entry := run(label)
+	strCall, loadedBy := 0, []string{"load-file"}
+	if !sc.StrTop {
+		strCall, loadedBy = 1, []string{entry, "load-file"}
+	}
+	if respell != "" {
+		entry += "~" + respell
+	}
+	entry += "+str:" + sh.Name
+	if literal {
+		entry += "+literal"
+	}
+	if sc.StrInner {
+		entry += "+nested"
+	}
+	entry += "/" + class
+	ck.rec.Count("loads_via_string", 1)
+	ck.rec.Count("loads_via_string:by:"+by, 1)
+	ck.rec.Count("loads_via_string:label:"+class, 1)
+	ck.judgeContexts(lb, sc, entry, loc, ex, loadedBy, 0, strCall)
+	sig := ck.judgeRun(lb, sc, entry, loc, ex, sc.Chain, v, false)
+	if class == "no-name" || class == sandbox.StrClassEmpty || class == sandbox.StrClassWord {
+		return // such names are the control themselves; the model judges them
+	}
+	vc, _ := run(sandbox.StrControlLabel)
+	ck.rec.Eval(1)
+	ck.rec.Count("loads_via_string_control", 1)
+	trc := r.TranscriptOf(vc, 0, 0)
+	sigc := fmt.Sprintf("error=%v evaluated=[%s]", trc.IsErr, trc.TraceString())
+	if sigc == sig {
+		return
+	}
+	ck.report(lb.family+":result-depends-on-stream-name",
+		fmt.Sprintf("%s %s %s: location %q loaded by code evaluated from a string through %s: under the stream name %q (%s) %s, under the stream name %q %s", lb.label, entry, sc.Label, loc, by, label, class, sig, sandbox.StrControlLabel, sigc),
+		func() string {
+			return ck.describe(lb, sc, entry, loc, ex) + "source text: " + src + "\nstream name " + fmt.Sprintf("%q", label) + ": " + sig + "\nstream name " + fmt.Sprintf("%q", sandbox.StrControlLabel) + ": " + sigc + "\n"
+		})
+}
+
+// judgeRun judges what one interpreter load evaluated: the probes of the
+// expected chain of loading files first, then the served file.  It returns the
+// outcome of the load as a comparable string (error or not, files evaluated in
+// order).
+func (ck *c20Checker) judgeRun(lb *c20Lib, ld *sandbox.Loader, entry, loc string, ex c20Expect, chain []string, v *lisp.LVal, isSeq bool) string {
+	r := lb.run
 	ck.rec.Eval(1)
 	ck.rec.Count("loads_via_interpreter", 1)
 	ck.rec.SetAdd("entry_points", entry)
 	tr := r.TranscriptOf(v, 0, 0)
+	sig := fmt.Sprintf("error=%v evaluated=[%s]", tr.IsErr, tr.TraceString())
 	root := lb.rootOf(ck.l)
 	// 1. confinement of everything evaluated
 	var probes []*fsmodel.Node
@@ -1190,7 +1390,7 @@ func (ck *c20Checker) viaLisp(lb *c20Lib, ld *sandbox.Loader, loc string, ex c20
 		}
 		ck.rec.Count("loader_not_reached", 1)
 		ck.rec.Count("loader_not_reached:"+lb.kind+"/"+lb.spec+"/"+c20CtxLabel(ld), 1)
-		return
+		return sig
 	}
 	rest := probes[len(chain):]
 	if len(rest) == 0 {
@@ -1205,7 +1405,7 @@ func (ck *c20Checker) viaLisp(lb *c20Lib, ld *sandbox.Loader, loc string, ex c20
 		if ck.verbose {
 			ck.w.Logf("%-22s %-16s %-22s %-40q refused (%s)", lb.label, c20CtxLabel(ld), entry, loc, tr.Value)
 		}
-		return
+		return sig
 	}
 	ok := ck.judgeServed(lb, ld, entry, loc, ex, rest[0], "evaluated")
 	for _, n := range rest[1:] {
@@ -1218,7 +1418,7 @@ func (ck *c20Checker) viaLisp(lb *c20Lib, ld *sandbox.Loader, loc string, ex c20
 		ck.report(lb.family+":wrong-file-inside-root", fmt.Sprintf("%s %s: %q evaluated %s, expected %s", lb.label, entry, loc, rest[0].Path(), ex.mustServe.Path()),
 			func() string { return ck.describe(lb, ld, entry, loc, ex) })
 	}
-	if ok && !tr.IsErr && seqLabel == "" && strings.HasPrefix(rest[0].Content, "(verif:probe '"+rest[0].Marker+") \"") && tr.Value != `"`+rest[0].Marker+`"` {
+	if ok && !tr.IsErr && !isSeq && strings.HasPrefix(rest[0].Content, "(verif:probe '"+rest[0].Marker+") \"") && tr.Value != `"`+rest[0].Marker+`"` {
 		ck.rec.Count("value_not_marker", 1)
 	}
 	out := "served-in"
@@ -1229,6 +1429,7 @@ func (ck *c20Checker) viaLisp(lb *c20Lib, ld *sandbox.Loader, loc string, ex c20
 	if ck.verbose {
 		ck.w.Logf("%-22s %-16s %-22s %-40q %s value=%s trace=%s", lb.label, c20CtxLabel(ld), entry, loc, out, tr.Value, tr.TraceString())
 	}
+	return sig
 }
 
 // judgeContexts checks the loading contexts the interpreter handed to the
@@ -1252,11 +1453,49 @@ func (ck *c20Checker) viaLisp(lb *c20Lib, ld *sandbox.Loader, loc string, ex c20
 // and the file call i-1 served beyond that.  A later call of the sequence
 // reaching the library with the context of a file loaded earlier in the
 // sequence has the key <family>:loading-context-not-trueloc:later-in-sequence@seq:<shape>.
-func (ck *c20Checker) judgeContexts(lb *c20Lib, ld *sandbox.Loader, entry, loc string, ex c20Expect, loadedBy []string, nseq int) {
+//
+// strCall >= 0: library call number strCall is made by string-sourced code
+// (a string, []byte or reader evaluated under a free-form stream name), which
+// has no loading file: its context must carry the empty location
+// (SourceContext.Location: "If executing code is not sourced from a lisp file
+// then Location will return an empty string -- this includes LoadSource
+// operations triggered from native Go functions and raw strings/[]bytes
+// containing lisp code"; SourceContext.Name "should not be relied upon by a
+// SourceLibrary").  Key <family>:string-sourced-loading-context-not-empty:<what
+// evaluated the source>.  The chain rule applies to the calls after it.
+func (ck *c20Checker) judgeContexts(lb *c20Lib, ld *sandbox.Loader, entry, loc string, ex c20Expect, loadedBy []string, nseq int, strCall int) {
 	calls := lb.recl.calls
 	suffix := ck.keySuffix
 	defer func() { ck.keySuffix = suffix }()
+	listCalls := func() string {
+		var sb strings.Builder
+		sb.WriteString(ck.describe(lb, ld, entry, loc, ex))
+		sb.WriteString("library calls of this load (context location, request -> true location):\n")
+		for k, c := range calls {
+			fmt.Fprintf(&sb, "  #%d ctx=%q req=%q -> trueloc=%q ok=%v\n", k, c.ctxLoc, c.req, c.trueloc, c.ok)
+		}
+		return sb.String()
+	}
+	if strCall >= 0 && strCall < len(calls) {
+		before := true
+		for k := 0; k < strCall; k++ {
+			before = before && calls[k].ok
+		}
+		if before {
+			ck.rec.Count("loading_contexts_checked_string_sourced", 1)
+			if c := calls[strCall]; c.ctxLoc != "" {
+				ck.keySuffix = "" // the key names what evaluated the string-sourced code
+				ck.report(lb.family+":string-sourced-loading-context-not-empty:"+ck.strBy,
+					fmt.Sprintf("%s %s: code evaluated from a string through %s under the stream name %q (%s) called load-file %q, and the library was handed the loading context location %q instead of the empty location", lb.label, entry, ck.strBy, ck.strLabel, ck.strClass, c.req, c.ctxLoc),
+					listCalls)
+				ck.keySuffix = suffix
+			}
+		}
+	}
 	for i := 1; i < len(calls); i++ {
+		if i == strCall {
+			continue // made by string-sourced code, not by the file call i-1 served
+		}
 		ck.keySuffix = "" // the key names the entry point itself
 		pi := i - 1
 		if i >= 2 && i <= nseq {
@@ -1293,15 +1532,7 @@ func (ck *c20Checker) judgeContexts(lb *c20Lib, ld *sandbox.Loader, entry, loc s
 		}
 		ck.report(key,
 			fmt.Sprintf("%s %s: the file loaded through %s by request %q has the true location %q, but %s (%q) reached the library with the loading context %q", lb.label, entry, by, prev.req, prev.trueloc, nth, calls[i].req, calls[i].ctxLoc),
-			func() string {
-				var sb strings.Builder
-				sb.WriteString(ck.describe(lb, ld, entry, loc, ex))
-				sb.WriteString("library calls of this load (context location, request -> true location):\n")
-				for k, c := range calls {
-					fmt.Fprintf(&sb, "  #%d ctx=%q req=%q -> trueloc=%q ok=%v\n", k, c.ctxLoc, c.req, c.trueloc, c.ok)
-				}
-				return sb.String()
-			})
+			listCalls)
 		return
 	}
 }
